@@ -47,6 +47,9 @@ pub fn phases(prop: &str, tier: Tier) -> Vec<Phase> {
             Phase { name: "c18-user-shape", units: 1, seeded: false },
             Phase { name: "rt-large", units: if q { 5 } else { 6 }, seeded: false },
             Phase { name: "rt-seeded", units: if q { 1500 } else { 150_000 }, seeded: true },
+            // shapes read from foreign files (empty parts, one-point lines, zero parts) written back
+            Phase { name: "c03-sweep", units: 14, seeded: false },
+            Phase { name: "foreign-seeded", units: if q { 300 } else { 30_000 }, seeded: true },
         ],
         "C02" => vec![
             Phase { name: "rt-grid", units: 13, seeded: false },
@@ -54,7 +57,15 @@ pub fn phases(prop: &str, tier: Tier) -> Vec<Phase> {
             Phase { name: "rt-seeded", units: if q { 1500 } else { 150_000 }, seeded: true },
             Phase { name: "wfault-c02", units: if q { 1500 } else { 150_000 }, seeded: true },
         ],
-        "C01" | "C04" => vec![
+        "C04" => vec![
+            Phase { name: "rt-grid", units: 13, seeded: false },
+            Phase { name: "rt-large", units: if q { 5 } else { 6 }, seeded: false },
+            Phase { name: "rt-seeded", units: if q { 1500 } else { 150_000 }, seeded: true },
+            // shapes read from foreign files written back with an index
+            Phase { name: "c03-sweep", units: 14, seeded: false },
+            Phase { name: "foreign-seeded", units: if q { 300 } else { 30_000 }, seeded: true },
+        ],
+        "C01" => vec![
             Phase { name: "rt-grid", units: 13, seeded: false },
             Phase { name: "rt-large", units: if q { 5 } else { 6 }, seeded: false },
             Phase { name: "rt-seeded", units: if q { 1500 } else { 150_000 }, seeded: true },
@@ -80,12 +91,14 @@ pub fn phases(prop: &str, tier: Tier) -> Vec<Phase> {
         ],
         "C11" => vec![
             Phase { name: "crash-path", units: 4, seeded: false },
+            Phase { name: "crash-big", units: if q { 1 } else { 2 }, seeded: false },
             Phase { name: "crash-tear", units: if q { 160 } else { 8000 }, seeded: true },
             Phase { name: if q { "crash-sampled" } else { "crash-full" }, units: if q { 320 } else { 4000 }, seeded: true },
         ],
         "C12" => vec![
             Phase { name: "c12-big-file", units: 1, seeded: false },
             Phase { name: "wfault", units: if q { 640 } else { 150_000 }, seeded: true },
+            Phase { name: "wfault-c02", units: if q { 1500 } else { 150_000 }, seeded: true },
         ],
         "C07" => vec![
             Phase { name: "ladder", units: 15, seeded: false },
@@ -189,6 +202,7 @@ pub fn run_unit(prop: &str, phase: &str, unit: u64, seed: u64, _tier: Tier, ctx:
         "c10-sweep5" => crate::fam_histw::c10_sweep_unit(unit, 5, ctx, ctl),
         "crash-tear" => crate::fam_crash::tear_unit(derive(seed, "C11/tear", unit), ctx, ctl),
         "crash-path" => crate::fam_crash::path_unit(unit, ctx, ctl),
+        "crash-big" => crate::fam_crash::big_unit(unit, ctx, ctl),
         "crash-sampled" => crate::fam_crash::unit(derive(seed, "C11/crash", unit), 20_000, ctx, ctl),
         "crash-full" => crate::fam_crash::unit(derive(seed, "C11/crash", unit), usize::MAX, ctx, ctl),
         "wfault-c05" => crate::fam_wfault::unit_c05(derive(seed, "C05/wfault", unit), ctx, ctl),
@@ -214,7 +228,7 @@ pub fn meta(prop: &str) -> PropMeta {
     match prop {
         "C01" | "C02" | "C04" | "C18" => PropMeta {
             level: "exploration",
-            rule: "rt-grid: 13 types x parts 1..=6 x points/part 1..=8 x {Direct, BufWriter(7), BufWriter(8192)} x {with,without shx}, enumerated; rt-large: files of 1023..10000 records, shapes of 1023..2049 parts and of 1023..8193, 65535..70000, 2^17+5, 2^18+5 (thorough: 2^20+5) points per part, around the readers' internal limits and powers of two a block-wise writer may use; rt-seeded: one seeded scenario per run (type, 0..40 shapes via public constructors, swarm-drawn float classes incl. +-0, subnormals, +-inf, sentinels, no-data neighbourhood, NaN in Z/M; finalize placement; ending by drop / finalize+drop / write_shapes; writer and reader stacks; chunk/EINTR schedules on all four devices; by-path routes over pre-existing longer files in 1/16 of the runs). every file is read back through iter_shapes / iter_shapes_as / read / read_as / random access / the Iterator adaptors nth(1) + step_by(2), with and without index; wfault-c02 (C02 only): seeded workloads with finalize calls anywhere (plain or retried) x every device operation of every finalize failed once on either file - the file a later successful finalize or the drop leaves behind is judged by the strict decoder. A run is non-trivial if it wrote at least one shape; distinct = distinct (type, per-shape part-length signature, writer stack, call pattern, reader stack) tuples by hash. In 1/8 of the seeded runs the (empty) destinations are handed to the writer at a non-zero position. rt-large also writes single parts / multipoints of 65535..70000 points (Z and M types). A quarter of the multi-vertex shapes reach the writer as a Clone::clone() of the constructed value or as another shape overwritten with Clone::clone_from(). After the last explicit finalize of a history the bytes the destinations hold at that moment (below any buffer, the writer still alive) are read back through all routes as well.",
+            rule: "rt-grid: 13 types x parts 1..=6 x points/part 1..=8 x {Direct, BufWriter(7), BufWriter(8192)} x {with,without shx}, enumerated; rt-large: files of 1023..10000 records, shapes of 1023..2049 parts and of 1023..8193, 65535..70000, 2^17+5, 2^18+5 (thorough: 2^20+5) points per part, around the readers' internal limits and powers of two a block-wise writer may use; rt-seeded: one seeded scenario per run (type, 0..40 shapes via public constructors, swarm-drawn float classes incl. +-0, subnormals, +-inf, sentinels, no-data neighbourhood, NaN in Z/M; finalize placement; ending by drop / finalize+drop / write_shapes; writer and reader stacks; chunk/EINTR schedules on all four devices; by-path routes over pre-existing longer files in 1/16 of the runs). every file is read back through iter_shapes / iter_shapes_as / read / read_as / random access / the Iterator adaptors nth(1) + step_by(2), with and without index; wfault-c02 (C02 only): seeded workloads with finalize calls anywhere (plain or retried) x every device operation of every finalize failed once on either file - the file a later successful finalize or the drop leaves behind is judged by the strict decoder. A run is non-trivial if it wrote at least one shape; distinct = distinct (type, per-shape part-length signature, writer stack, call pattern, reader stack) tuples by hash. In 1/8 of the seeded runs the (empty) destinations are handed to the writer at a non-zero position. rt-large also writes single parts / multipoints of 65535..70000 points (Z and M types). A quarter of the multi-vertex shapes reach the writer as a Clone::clone() of the constructed value or as another shape overwritten with Clone::clone_from(). After the last explicit finalize of a history the bytes the destinations hold at that moment (below any buffer, the writer still alive) are read back through all routes as well. Every file is also read through iter_shapes().last(). C04 and C18 additionally run c03-sweep and foreign-seeded: every shape read from a foreign file (empty parts, one-point lines, zero parts) is written back through ShapeWriter - announced size = bytes emitted = stored content length, index entries address the records, the rewritten file reads back as what was read.",
             explanation: "Fault-free configuration of the simulator with must-be-masked transfer schedules: the real writer runs against simulated devices, the bytes are judged by an independent decoder and read back through every reading route of the real reader. Simulated time = device operations (logical_steps); the code under test has no clock.",
             exhaustive: false,
         },
@@ -226,19 +240,19 @@ pub fn meta(prop: &str) -> PropMeta {
         },
         "C06" => PropMeta {
             level: "exploration",
-            rule: "rt-grid: 13 types x parts 1..=6 x points/part 1..=8 x {Direct, BufWriter(7), BufWriter(8192)} x {with,without shx}, enumerated; rt-large: files of 1023..10000 records, shapes of 1023..2049 parts and of 1023..8193, 65535..70000, 2^17+5, 2^18+5 (thorough: 2^20+5) points per part, around the readers' internal limits and powers of two a block-wise writer may use; rt-seeded: one seeded scenario per run (type, 0..40 shapes via public constructors, swarm-drawn float classes incl. +-0, subnormals, +-inf, sentinels, no-data neighbourhood, NaN in Z/M; finalize placement; ending by drop / finalize+drop / write_shapes; writer and reader stacks; chunk/EINTR schedules on all four devices; by-path routes over pre-existing longer files in 1/16 of the runs). A run is non-trivial if it wrote at least one shape; distinct = distinct (type, per-shape part-length signature, writer stack, call pattern, reader stack) tuples by hash. c03-sweep and foreign-seeded: files from the reference encoder incl. null records. On every well-formed file: the full 13 x 13 matrix of (requested type, file type) for read_as vs convert_shapes_to_vec_of(read()), drained iter_shapes_as for every wrong type, TryFrom<Shape> into all 13 types for every value, shapetype() of value and of type. foreign-seeded / c03-sweep: a quarter of the foreign files (incl. physically permuted ones) are also read by path, read_shapes_as(path) against read_shapes(path) converted.",
+            rule: "rt-grid: 13 types x parts 1..=6 x points/part 1..=8 x {Direct, BufWriter(7), BufWriter(8192)} x {with,without shx}, enumerated; rt-large: files of 1023..10000 records, shapes of 1023..2049 parts and of 1023..8193, 65535..70000, 2^17+5, 2^18+5 (thorough: 2^20+5) points per part, around the readers' internal limits and powers of two a block-wise writer may use; rt-seeded: one seeded scenario per run (type, 0..40 shapes via public constructors, swarm-drawn float classes incl. +-0, subnormals, +-inf, sentinels, no-data neighbourhood, NaN in Z/M; finalize placement; ending by drop / finalize+drop / write_shapes; writer and reader stacks; chunk/EINTR schedules on all four devices; by-path routes over pre-existing longer files in 1/16 of the runs). A run is non-trivial if it wrote at least one shape; distinct = distinct (type, per-shape part-length signature, writer stack, call pattern, reader stack) tuples by hash. c03-sweep and foreign-seeded: files from the reference encoder incl. null records. On every well-formed file: the full 13 x 13 matrix of (requested type, file type) for read_as vs convert_shapes_to_vec_of(read()), drained iter_shapes_as for every wrong type, TryFrom<Shape> into all 13 types for every value, shapetype() of value and of type. foreign-seeded / c03-sweep: a quarter of the foreign files (incl. physically permuted ones) are also read by path, read_shapes_as(path) against read_shapes(path) converted. For a quarter of the files the whole matrix is run again on the same records under a header that names another type.",
             explanation: "Fault-free configuration of the simulator with must-be-masked transfer schedules: the real writer runs against simulated devices, the bytes are judged by an independent decoder and read back through every reading route of the real reader. Simulated time = device operations (logical_steps); the code under test has no clock.",
             exhaustive: false,
         },
         "C03" => PropMeta {
             level: "exploration",
-            rule: "c03-sweep: 14 type codes x every combination of present/absent optional M over 3 records x {normal, zero parts, one-vertex parts, zero-vertex parts} x {with, without trailing bytes}, enumerated; foreign-large: 5000 records incl. null records, 1025..2049 parts incl. empty and one-vertex parts, 1024..3000 points per part; foreign-seeded: one seeded file per run from the reference encoder (any of the 14 codes, 0..6 records, null records interleaved, 0..4 parts of 0..7 vertices, any float bit pattern incl. NaN in X/Y, arbitrary stored boxes and record numbers, optional M per record, bytes after the declared length, short-read/EINTR schedules, BufReader capacities). non-trivial = at least one record; distinct = distinct (type, per-record (type, M present, part lengths), order, filler lengths, trailing length) tuples. Files with contiguous records are also read with their index by two successive iterators of one reader (half of the records, then the rest), whatever record numbers they store.",
+            rule: "c03-sweep: 14 type codes x every combination of present/absent optional M over 3 records x {normal, zero parts, one-vertex parts, zero-vertex parts} x {with, without trailing bytes}, enumerated; foreign-large: 5000 records incl. null records, 1025..2049 parts incl. empty and one-vertex parts, 1024..3000 points per part; foreign-seeded: one seeded file per run from the reference encoder (any of the 14 codes, 0..6 records, null records interleaved, 0..4 parts of 0..7 vertices, any float bit pattern incl. NaN in X/Y, arbitrary stored boxes and record numbers, optional M per record, bytes after the declared length, short-read/EINTR schedules, BufReader capacities). non-trivial = at least one record; distinct = distinct (type, per-record (type, M present, part lengths), order, filler lengths, trailing length) tuples. Files with contiguous records are also read with their index by two successive iterators of one reader (half of the records, then the rest), whatever record numbers they store. With the index: all but two records through next(), the next one asked for as another type, the remaining one through Iterator::last().",
             explanation: "Stub producer, real consumer: the file comes from the independent reference encoder, the real reader decodes it from a simulated source. Oracle: same record count and order, parts, patch kinds, coordinates bit-identical with absent M reported as NO_DATA and present M normalised, stored box returned as stored, no read beyond the declared length (Direct stack, from the device event log).",
             exhaustive: false,
         },
         "C14" => PropMeta {
             level: "exploration",
-            rule: "c14-sweep: 13 types x n=1..4 records of pairwise different sizes x all n! physical orders x {no filler, short filler, filler that looks like a record header}, enumerated; c14-sparse: 13 types x 5 layouts of a sparse source of up to 4 GiB whose records sit at and beyond the 2 GiB boundary, in non-physical index order; foreign-seeded: seeded files with shuffled physical order, random even-length filler (some looking like record headers) before/between/after records, short-read schedules, BufReader capacities. distinct as for C03. A quarter of all scenarios (chosen by content hash) are also written to disk and read by path: read_shapes, ShapeReader::from_path(..).read(), read_shapes_as (the .shx next to the .shp is supplied to each), and typed-by-path is compared with generic-by-path converted (C06). Half of the by-path scenarios are data sets of symbolic links into a store whose files carry other names.",
+            rule: "c14-sweep: 13 types x n=1..4 records of pairwise different sizes x all n! physical orders x {no filler, short filler, filler that looks like a record header}, enumerated; c14-sparse: 13 types x 5 layouts of a sparse source of up to 4 GiB whose records sit at and beyond the 2 GiB boundary, in non-physical index order; foreign-seeded: seeded files with shuffled physical order, random even-length filler (some looking like record headers) before/between/after records, short-read schedules, BufReader capacities. distinct as for C03. A quarter of all scenarios (chosen by content hash) are also written to disk and read by path: read_shapes, ShapeReader::from_path(..).read(), read_shapes_as (the .shx next to the .shp is supplied to each), and typed-by-path is compared with generic-by-path converted (C06). Half of the by-path scenarios are data sets of symbolic links into a store whose files carry other names. iter_shapes().last() on a fresh indexed reader over every layout.",
             explanation: "The reference encoder places records at arbitrary offsets and writes the matching .shx; the real reader opened with_shx must yield one item per index entry in index order, each equal to the record at that entry, agree with read_nth_shape(i) and shape_count(). Reach counter: seeks issued during indexed iteration.",
             exhaustive: true,
         },
@@ -250,13 +264,13 @@ pub fn meta(prop: &str) -> PropMeta {
         },
         "C15" => PropMeta {
             level: "exploration",
-            rule: "all call sequences up to length 4 (quick) / 6 (thorough) over the 18-letter alphabet {random access as a user-defined ReadableShape whose read_from panics (caught by the caller), iterate 0/1/2/all items, Iterator::nth(1) on a new iterator (what skip and step_by call), read_nth_shape(0..=3), read_nth_shape_as::<another type>(0..=1) (a random access that fails), iterate as another type and take one item (an iteration that fails), seek(0..=3), shape_count} on files of n=3 records (plus six configurations with n = 1, 2 and 4 records; the 4-record ones one call shorter), for 12 configurations: {ShapeReader with index, ShapeReader without index, complete Reader with rows carrying their index, complete Reader without index} x {records of pairwise different sizes, records of equal size}, plus 4 configurations (ShapeReader with index, complete Reader) on files re-laid out so that the physical order differs from the index order (reversed with filler; rotated with filler that looks like a record header), enumerated completely (18 + 18^2 + 18^3 + 18^4 histories per 3-record configuration in the quick tier). distinct = distinct (configuration, history) pairs; evaluations = histories executed; logical_steps = reader calls.",
+            rule: "all call sequences up to length 4 (quick) / 6 (thorough) over the 19-letter alphabet {Iterator::last() on a new iterator, random access as a user-defined ReadableShape whose read_from panics (caught by the caller), iterate 0/1/2/all items, Iterator::nth(1) on a new iterator (what skip and step_by call), read_nth_shape(0..=3), read_nth_shape_as::<another type>(0..=1) (a random access that fails), iterate as another type and take one item (an iteration that fails), seek(0..=3), shape_count} on files of n=3 records (plus six configurations with n = 1, 2 and 4 records; the 4-record ones one call shorter), for 12 configurations: {ShapeReader with index, ShapeReader without index, complete Reader with rows carrying their index, complete Reader without index} x {records of pairwise different sizes, records of equal size}, plus 4 configurations (ShapeReader with index, complete Reader) on files re-laid out so that the physical order differs from the index order (reversed with filler; rotated with filler that looks like a record header), enumerated completely (19 + 19^2 + 19^3 + 19^4 histories per 3-record configuration in the quick tier). distinct = distinct (configuration, history) pairs; evaluations = histories executed; logical_steps = reader calls.",
             explanation: "Each history runs on the real reader over in-memory sources; every call's result is checked against a nondeterministic reference model whose state is the set of allowed positions of the next record: fresh / after random access = {0}, after seek(k) = {min(k,n)}, after an iteration that took items from p = {p+taken, 0}. Rows of the complete Reader must carry the index of their shape.",
             exhaustive: true,
         },
         "C09" => PropMeta {
             level: "exploration",
-            rule: "c09-sweep: all sequences over {write a, write b, finalize} up to length 4 (quick) / 6 (thorough) x ending {drop, finalize+drop, write_shapes} x 13 types x {with,without index} x {Direct, BufWriter(5), BufWriter(8192)}, enumerated completely; hw-seeded: longer seeded histories with varying shapes, rejected writes and masked transfer schedules. distinct = distinct (type, call pattern, index, stack) tuples; all are non-trivial (each executes at least the ending). wfault-c02: seeded workloads with finalize calls anywhere x every device operation of every explicit finalize failed once: what the drop leaves must equal write-all-then-drop (a third of the workloads carry only NaN in Z/M before the first finalize).",
+            rule: "c09-sweep: all sequences over {write a, write b, finalize} up to length 4 (quick) / 6 (thorough) x ending {drop, finalize+drop, write_shapes} x 13 types x {with,without index} x {Direct, BufWriter(5), BufWriter(8192)}, enumerated completely; hw-seeded: longer seeded histories with varying shapes, rejected writes and masked transfer schedules. distinct = distinct (type, call pattern, index, stack) tuples; all are non-trivial (each executes at least the ending). wfault-c02: seeded workloads with finalize calls anywhere x every device operation of every explicit finalize failed once: what the drop leaves must equal write-all-then-drop (a third of the workloads carry only NaN in Z/M before the first finalize). The sweep runs the histories up to length 4 (plain drop, finalize then drop) also on destinations that already hold 104 bytes of older content, against write-all-then-drop on such destinations.",
             explanation: "Each history runs on simulated devices with every call bracketed by the device events it caused; final bytes are compared with those of 'same shapes, drop' executed in the same process; after every successful finalize the device content below any buffer must be a complete shapefile (independent decoder); an idle finalize must have an empty event range.",
             exhaustive: true,
         },
@@ -268,13 +282,13 @@ pub fn meta(prop: &str) -> PropMeta {
         },
         "C11" => PropMeta {
             level: "fault_enumeration",
-            rule: "one unit = one seeded workload (type, 1..5 tagged shapes, 0..3 finalize calls anywhere, Direct or BufWriter stack, with index) run once; then every .shp cut point (every event boundary and every byte inside every write) is read without index, and every (shp cut, shx cut) pair - all of them in the thorough tier, an evenly strided sample of at most 20000 per workload in the quick tier - is read with index (sequential + random access at every entry). evaluations = crash states judged; distinct = distinct (workload, shp image hash, shx image hash) triples actually read; duplicates are skipped and counted in reach. crash-tear: seeded files of 20..420 small records (so that the header length field changes in more than its last byte), every crash state inside the header rewrites of finalize/drop, read without and with the (complete) index; crash-path: 28 deterministic by-path scenarios on the real file system: a (longer) shapefile already exists at the path, ShapeWriter::from_path writes new shapes with an optional finalize and then crashes (mem::forget: buffered bytes are lost). With the index, after random access at every entry (the last ones may fail on a cut record) the same reader is iterated again and drained completely: the Ok items, errors skipped, must still be shapes 0..j in order.",
+            rule: "one unit = one seeded workload (type, 1..5 tagged shapes, 0..3 finalize calls anywhere, Direct or BufWriter stack, with index) run once; then every .shp cut point (every event boundary and every byte inside every write) is read without index, and every (shp cut, shx cut) pair - all of them in the thorough tier, an evenly strided sample of at most 20000 per workload in the quick tier - is read with index (sequential + random access at every entry). evaluations = crash states judged; distinct = distinct (workload, shp image hash, shx image hash) triples actually read; duplicates are skipped and counted in reach. crash-tear: seeded files of 20..420 small records (so that the header length field changes in more than its last byte), every crash state inside the header rewrites of finalize/drop, read without and with the (complete) index; crash-path: 28 deterministic by-path scenarios on the real file system: a (longer) shapefile already exists at the path, ShapeWriter::from_path writes new shapes with an optional finalize and then crashes (mem::forget: buffered bytes are lost). With the index, after random access at every entry (the last ones may fail on a cut record) the same reader is iterated again and drained completely: the Ok items, errors skipped, must still be shapes 0..j in order. crash-big: a two-point line and a 4.2 M-point line (a 64 MiB record), crash images cut near the start, in the middle and near the end of the large record with a complete index.",
             explanation: "Crash states are reconstructed from the recorded event log, not by re-running the writer. Oracle: Ok items before the first Err are a prefix of the shapes written; random access returns shape i or an error; shapes written before a finalize whose Flush on the .shp is inside the prefix are all readable without index.",
             exhaustive: false,
         },
         "C12" => PropMeta {
             level: "fault_enumeration",
-            rule: "one unit = one seeded workload (write_shape / finalize retried at once while it fails, up to 3 times / finalize whose failure is ignored and followed by further writes / drop; Direct or BufWriter stack); golden run, then for every operation k issued on each destination: one-shot error, persistent error, Ok(0), EINTR at k; two and three consecutive one-shot errors starting at k (the retry fails too); disk-full at ~150 capacities per destination; every short-write chunk size from 1 byte upward with and without EINTR; 6 seeded mixed schedules. distinct = distinct (history, fault class, per-call result pattern) triples; runs whose fault never fired are not counted as distinct. c12-big-file: 34 user-defined shapes of 64 MiB on a sparse sink, a finalize at 2 GiB that fails once at its k-th operation (k = 1..6) and is not retried, further writes, drop: same file as the undisturbed run.",
+            rule: "one unit = one seeded workload (write_shape / finalize retried at once while it fails, up to 3 times / finalize whose failure is ignored and followed by further writes / drop; Direct or BufWriter stack); golden run, then for every operation k issued on each destination: one-shot error, persistent error, Ok(0), EINTR at k; two and three consecutive one-shot errors starting at k (the retry fails too); disk-full at ~150 capacities per destination; every short-write chunk size from 1 byte upward with and without EINTR; 6 seeded mixed schedules. distinct = distinct (history, fault class, per-call result pattern) triples; runs whose fault never fired are not counted as distinct. c12-big-file: 34 user-defined shapes of 64 MiB on a sparse sink, a finalize at 2 GiB that fails once at its k-th operation (k = 1..6) and is not retried, further writes, drop: same file as the undisturbed run. wfault-c02: seeded workloads with finalize calls anywhere, in a third of them a shape of another type offered (rejected) after every finalize, every device operation of every explicit finalize failed once: the files left by the drop equal those of the undisturbed run.",
             explanation: "Surfacing is judged with the API-call brackets: the call whose device-event range contains the failed operation must return Err (exact also below a BufWriter). Whenever every fault of a run landed inside finalize calls (first attempts, retries, or finalizes that are not retried) and none in a write or in the drop, the final files must equal the golden ones - the history always ends with the finalize run by Drop. Masked schedules (short writes, EINTR on writes) must leave golden bytes. Drop with a persistently failing destination must not panic.",
             exhaustive: false,
         },
@@ -286,7 +300,7 @@ pub fn meta(prop: &str) -> PropMeta {
         },
         "C13" => PropMeta {
             level: "fault_enumeration",
-            rule: "one unit = one seeded valid file from the real writer (every type, 1..4 tagged shapes); every truncation length 0..=len of the .shp (read with and without index) and of the .shx; for each of 3 reader stacks (Direct, small BufReader, BufReader(8192)) x {with, without index}: every operation k of an undisturbed full traversal (open, iterate, read_nth every i) failed one-shot with a rotating error kind and with EINTR; every short-read chunk size x {no EINTR, EINTR every 2nd, every 5th call}; 8 seeded mixed schedules; the same fault sweeps on two re-laid-out versions of each file (physical order != index order, so that the indexed traversal seeks); rfault-large: 8 files whose middle record has a part of 1025..2000 points or 1030 parts, with strides away from record boundaries (11 bytes / 37 operations; 101 / 409 in the quick tier). distinct = distinct (file, fault/truncation, route) triples by hash. size_hint() is called after every item, errors included (what collect() does).",
+            rule: "one unit = one seeded valid file from the real writer (every type, 1..4 tagged shapes); every truncation length 0..=len of the .shp (read with and without index) and of the .shx; for each of 3 reader stacks (Direct, small BufReader, BufReader(8192)) x {with, without index}: every operation k of an undisturbed full traversal (open, iterate, read_nth every i) failed one-shot with a rotating error kind and with EINTR; every short-read chunk size x {no EINTR, EINTR every 2nd, every 5th call}; 8 seeded mixed schedules; the same fault sweeps on two re-laid-out versions of each file (physical order != index order, so that the indexed traversal seeks); rfault-large: 8 files whose middle record has a part of 1025..2000 points or 1030 parts, with strides away from record boundaries (11 bytes / 37 operations; 101 / 409 in the quick tier). distinct = distinct (file, fault/truncation, route) triples by hash. size_hint() is called after every item, errors included (what collect() does). The traversal ends with Iterator::last() and two more items; on the complete file read from a source that never fails no iteration item and no random access to an existing entry may be an error.",
             explanation: "Every reader call of the traversal is bracketed with its device events. Oracles: only genuine shapes at their positions; records wholly inside the retained bytes are returned; the cut record is Error::IoError; a hard source failure surfaces from the call in progress with that error; short reads / EINTR leave every result identical to the undisturbed traversal.",
             exhaustive: false,
         },
